@@ -34,7 +34,10 @@ PATHS = ["s", "n", "z", "e", "lst", "elst", "m/k", "m/lst", "none", "missing", "
          "x/name | default", "x/name | nothing", "y/name", "x/name | string:(unnamed)",
          # full TALES expressions inside ${...}: alternation and prefixes; $name is a plain path
          "string:t=${missing/title | title};", "string:${not:z}-${exists:s}-${exists:missing}", "string:${string:in ${n} ner}", "string:${x/name | string:none}!",
-         "string:$missing|s $n|z", "string:${nocall:n}${path:s}", " s", "  python: 'PYTHON-ORACLE'", "string:${ python: 'PYTHON-ORACLE' }", "\tn"]
+         "string:$missing|s $n|z", "string:${nocall:n}${path:s}", " s", "  python: 'PYTHON-ORACLE'", "string:${ python: 'PYTHON-ORACLE' }", "\tn",
+         # the first alternative of exists: / nocall: is a path like the others, blanks around `|` included
+         "exists:s | missing", "exists: s | missing", "nocall:s | n", "nocall: missing | n", "not:exists: m/k | missing", "exists: missing/x | missing",
+         "string:${exists: s | z}${nocall: n | s}"]
 TRUE_PATHS = ["s", "n", "lst", "m/k", "title", "default", "not:missing", "exists:s", "people"]
 SEQ_PATHS = ["lst", "lst", "people", "nested", "m/lst", "elst", "s", "x", "none", "missing", "n", "default", "mixed", "mixed"]
 
@@ -46,6 +49,12 @@ DEFINES = ["v s", "v n; w string:W", "global g s", "v lst", "v missing | string:
 
 # templates that once separated a seeded defect from the real thing: they always run first
 FIXED = [
+    # exists: / nocall: with blanks around the alternation bar, and on a repeat variable as a whole
+    [("elem", "b", [], {"condition": "exists: s | missing"}, [("text", "x")]), ("elem", "i", [], {"content": "nocall: s | n"}, [("text", "y")]),
+     ("elem", "u", [], {"condition": "not:exists: missing | s"}, [("text", "z")])],
+    [("elem", "ul", [], {}, [("elem", "li", [], {"repeat": "x lst"}, [("elem", "b", [], {"condition": "exists: repeat/x"}, [("text", "in")]),
+                                                                        ("elem", "i", [], {"condition": "exists:repeat/x/index"}, [("text", "dex")]),
+                                                                        ("elem", "u", [], {"condition": "not:exists:repeat/y"}, [("text", "noy")])])])],
     # the `text` keyword of content / replace (the default, said explicitly)
     [("elem", "b", [], {"content": "text s"}, [("text", "x")]), ("elem", "i", [], {"replace": "text n"}, []), ("elem", "u", [], {"content": "text missing | string:alt"}, [])],
     [("elem", "p", [], {"content": "n/0 | string:alt"}, [("text", "d")]), ("elem", "p", [], {"condition": "not:exists:n/10", "content": "string:[${n/3}]"}, []),
